@@ -312,9 +312,12 @@ theorem fstep_dlw (fuel : Nat) (ih : FrameM fuel) : ∀ w which bytes o,
     doLocalWrite (fuel + 1) (World.addOld w o) which bytes =
       (doLocalWrite (fuel + 1) w which bytes).addOld o := by
   intro w which bytes o
-  simp only [doLocalWrite, ioWrite_addOld, ih.dlf]
+  simp only [doLocalWrite, ioWrite_addOld]
   split
-  · rfl
+  · have e : (w.addOld o).discDone which = (w.discDone which).addOld o := by
+      unfold World.discDone; repeat' split
+      all_goals rfl
+    rw [e, ih.dlf]
   · cases h : w.ioWrite bytes with
     | mk w1 r =>
       cases r with
